@@ -22,6 +22,7 @@ func init() {
 func runC39(w *World, r *Report) {
 	r.Rule("R-C39-1", "constant-index guard: in package server/assets every x[k] with constant k into a slice/string of unknown length is unreachable once the edges establishing len(x) > k are removed", 3)
 	r.Rule("R-C39-2", "request-derived sizes: every make() length and slice bound computed from the range start/end parameters is unreachable once the edges establishing start < file size are removed (or lies on the in-memory path guarded by the constant smartRangeLoading)", 2)
+	c39CacheKey(w, r)
 	r.Rule("R-C39-3", "containment: every os file call in package assets takes its path from normalizeAssetPath; normalizeAssetPath returns the joined path only behind the HasPrefix(root+separator) true edge", 4)
 
 	p := w.pkg("internal/server/assets")
@@ -268,5 +269,85 @@ func runC39(w *World, r *Report) {
 		r.Violate("R-C39-3", key, bad, "the joined path is returned without having passed the containment test")
 	} else {
 		r.Discharge("R-C39-3", key, w.pos(norm.Pos()), "joined path returned only behind HasPrefix(fn, root+separator)")
+	}
+}
+
+// c39CacheKey: R-C39-4. The asset cache is consulted before the disk, so the
+// cache key has to determine the file: two request paths that name different
+// files must not share a key. normalizeCachePath may only add a constant in
+// front of (or behind) the path it is given, or return it unchanged; anything
+// that maps several paths to one (case folding, cleaning, trimming) lets the
+// bytes of the file served first answer for the others -- also for names with
+// no file behind them.
+func c39CacheKey(w *World, r *Report) {
+	r.Rule("R-C39-4", "the asset cache key determines the file: every value normalizeCachePath returns is its parameter, or a constant concatenated with its parameter (an injective normalisation)", 1)
+
+	ap := w.pkg("internal/server/assets")
+	if ap == nil {
+		return
+	}
+
+	fn := w.ssaFunc(ap, "normalizeCachePath")
+	if fn == nil {
+		r.Anchor("R-C39-4", "assets.normalizeCachePath")
+
+		return
+	}
+
+	if len(fn.Params) != 1 {
+		r.Violate("R-C39-4", "assets.normalizeCachePath|key is injective", w.pos(fn.Pos()), "normalizeCachePath no longer takes exactly the request path")
+
+		return
+	}
+
+	param := ssa.Value(fn.Params[0])
+
+	var injective func(v ssa.Value, depth int) bool
+
+	injective = func(v ssa.Value, depth int) bool {
+		if depth > 6 {
+			return false
+		}
+
+		if v == param {
+			return true
+		}
+
+		switch x := v.(type) {
+		case *ssa.Phi:
+			for _, e := range x.Edges {
+				if !injective(e, depth+1) {
+					return false
+				}
+			}
+
+			return true
+		case *ssa.BinOp:
+			if x.Op != token.ADD {
+				return false
+			}
+
+			_, cx := constString(x.X)
+			_, cy := constString(x.Y)
+
+			return (cx && injective(x.Y, depth+1)) || (cy && injective(x.X, depth+1))
+		}
+
+		return false
+	}
+
+	bad := ""
+
+	for _, ret := range returnsOf(fn) {
+		if !injective(retResult(ret, 0), 0) {
+			bad = w.pos(ret.Pos())
+		}
+	}
+
+	key := "assets.normalizeCachePath|key is injective"
+	if bad != "" {
+		r.Violate("R-C39-4", key, bad, "the cache key is computed from the request path by something that can map different paths to one key: once one of them has been served, the others are answered from the cache with its bytes and status 200, without the disk being asked")
+	} else {
+		r.Discharge("R-C39-4", key, w.pos(fn.Pos()), "parameter, or constant + parameter")
 	}
 }
